@@ -210,6 +210,43 @@ def rule_r5(ck, prog, rule='C13.R5'):
         raise AnalysisBroken('only %d of the documented argument types are instantiated in the driver unit' % len(seen))
 
 
+def rule_r9(ck, prog, rule='C13.R9', cls='sdk::logs::ReadWriteLogRecord'):
+    """identity setters are independent: a setter (SetTraceId / SetSpanId / SetTraceFlags) creates the shared identity block only when
+    it is absent - with "the block exists" pinned, the assignment that replaces it is unreachable.  A setter that re-creates the
+    block on some other condition wipes what the other two setters stored (explicit identity is delivered in argument order, so the
+    span id may well arrive before the trace id)."""
+    rec = prog.record(cls)
+    ptr_fields = [fd['name'] for fd in rec['fields'] if 'unique_ptr' in fd['t'] or 'shared_ptr' in fd['t'] or fd['t'].rstrip().endswith('*')]
+    cnt = 0
+    for f in sorted([x for x in prog.funcs.values() if x.cls == rec['qn'] and x.name.startswith('Set') and x.blocks and not x.d.get('lambda')], key=lambda x: x.key):
+        g = None
+        for fld in ptr_fields:
+            resets = [n for n in f.nodes if ((n['k'] == 'binop' and n['op'] == '=' and access_path(f, n['lhs']) == ('this', fld)) or
+                                              (n['k'] == 'call' and n.get('op') == '=' and n.get('obj') is not None and access_path(f, n['obj']) == ('this', fld)) or
+                                              (n['k'] == 'call' and n.get('obj') is not None and access_path(f, n['obj']) == ('this', fld) and
+                                               strip_targs(n.get('c', '')).rsplit('::', 1)[-1] in ('reset',)))]
+            if not resets:
+                continue
+            # only blocks that several setters share (a field written through this pointer elsewhere)
+            sharers = {x.name for x in prog.funcs.values() if x.cls == rec['qn'] and x.name.startswith('Set') and
+                       any(m['k'] == 'member' and access_path(x, m['i'])[:2] == ('this', fld) for m in x.nodes)}
+            if len(sharers) < 2:
+                continue
+            if g is None:
+                g = Graph(prog, f, inline=None, sync_lambdas=False)
+            pts = [p for p in g.points if p.f is f and p.n is not None and any(p.n is r for r in resets)]
+            pins = pointer_pins(f, lambda ap, fld=fld: ap == ('this', fld), True)
+            cnt += 1
+            leak = feasible_reach(g, [g.entry], pts, pins=pins)
+            ck.verdict(leak is None, rule, f, 'identity-block-created-only-when-absent:%s' % f.name, resets[0],
+                       '%s is (re)created only when it is null' % fld if leak is None else
+                       '%s can replace an existing %s: what %s stored before (e.g. a span id delivered ahead of the trace id) is wiped' %
+                       (f.name, fld, ' / '.join(sorted(sharers - {f.name}))))
+    if cnt == 0:
+        raise AnalysisBroken('C13.R9: no setter creating a shared identity block found in %s' % cls)
+    return cnt
+
+
 def run(ck, prog):
     ck.doc('C13.R1', 'concrete log recordables own their data (no borrowing field types); API container setters view caller storage', 11)
     ck.doc('C13.R2', 'correlation: all three identity setters on every path behind a found active span; API setters sequenced left to right', 9)
@@ -223,6 +260,8 @@ def run(ck, prog):
     ck.doc('C01.R4', '(shared rule, see C01) count handed to Consume derives from size() / the batch bound', 1)
     ck.doc('C02.R13', '(shared rule, see C02) the logger provider\'s destructor shuts its context down', 1)
     ck.doc('C13.R7', 'the simple log processor hands every record to the exporter (no path around Export)', 1)
+    ck.doc('C13.R9', 'identity setters are independent: the shared trace-identity block is created only when absent', 3)
+    ck.doc('C19.R7', '(shared rule, see C19) every named constructor parameter of the logger provider / context is used (the configurator reaches the context)', 3)
     with ck.canary('C13.R2'):
         rule_r2_api_canary(ck, prog)
     c04.rule_r6(ck, prog, base='sdk::logs::Recordable', rule='C13.R1')
@@ -251,6 +290,10 @@ def run(ck, prog):
     n8 = callbacks_never_stop(ck, prog, 'C13.R8', hosts)
     if not n8:
         raise AnalysisBroken('no ForEachKeyValue copy callback found in the logs API traits')
+    rule_r9(ck, prog)
+    # "a disabled logger emits nothing" needs the configurator to reach the context through every provider constructor (see C19.R7)
+    from . import c19
+    c19.rule_r7(ck, prog)
     return {}
 
 
